@@ -142,7 +142,9 @@ def eval_comprehension(I: Interp, node, fr: Frame, kind):
         x = z3.Const(f"x!{tag}", Val)
         at = lambda t, i: z3.substitute(t, (iv, z3.IntVal(i)))  # noqa: E731
         live = [smt.simp(z3.And(z3.IntVal(i) < n, at(cond, i))) for i in range(K)]
-        has = z3.Lambda([x], z3.Or(*[z3.And(live[i], at(key.t, i) == x) for i in range(K)]))
+        has = z3.K(Val, z3.BoolVal(False))  # membership as a finite chain of stores on the all-false array (no lambda)
+        for i in range(K):
+            has = z3.If(live[i], z3.Store(has, at(key.t, i), z3.BoolVal(True)), has)
         get = st.fresh("comp_get", smt.ArrVV)
         for i in range(K):
             get = z3.If(live[i], z3.Store(get, at(key.t, i), at(val.t, i)), get)
